@@ -24,21 +24,22 @@ type csRange struct {
 }
 
 type csDef struct {
-	Sys   string  `json:"sys"`
-	N     int     `json:"n"`
-	First int     `json:"first"`
-	Add   int     `json:"add"`
-	Rng   csRange `json:"rng"`
-	Pad   int     `json:"pad"`
-	Neg   string  `json:"neg"`
-	Fb    string  `json:"fb"`
-	Ext   string  `json:"ext"`
-	Mb    bool    `json:"mb"`
+	Sys    string  `json:"sys"`
+	N      int     `json:"n"`
+	First  int     `json:"first"`
+	Add    int     `json:"add"`
+	Rng    csRange `json:"rng"`
+	Pad    int     `json:"pad"`
+	Neg    string  `json:"neg"`
+	Fb     string  `json:"fb"`
+	Ext    string  `json:"ext"`
+	Mb     bool    `json:"mb"`
+	RngSet bool    `json:"rngset"`
 }
 
 type csScn struct {
-	Defs map[string]csDef `json:"defs"`
-	V    int              `json:"v"`
+	Defs  map[string]csDef `json:"defs"`
+	V     int              `json:"v"`
 	Want  []string         `json:"want"`
 	Via   string           `json:"via"`
 	Style string           `json:"style"`
@@ -84,6 +85,8 @@ func csRule(name string, d csDef) string {
 	}
 	if !d.Rng.Auto {
 		b.WriteString(fmt.Sprintf("range: %d %d; ", d.Rng.Lo, d.Rng.Hi))
+	} else if d.RngSet {
+		b.WriteString("range: auto; ")
 	}
 	if d.Pad > 0 {
 		b.WriteString(fmt.Sprintf("pad: %d \"0\"; ", d.Pad))
